@@ -6,8 +6,12 @@ _cache = 'cache'
 def _items(value):
     try:
         return tuple(sorted([(k, _prehash(v)) for k, v in value.items()]))
-    except TypeError:
-        return tuple([(k, _prehash(v)) for k, v in value.items()])
+    except TypeError: # keys that cannot be ordered among themselves, e.g. {1:'a', 'b':2}: the same dict written in another order is still the same argument
+        items = [(k, _prehash(v)) for k, v in value.items()]
+        try:
+            return frozenset(items)
+        except TypeError:
+            return tuple(items)
 
 def _prehash(value):
     """
